@@ -746,8 +746,37 @@ def lattice_params(rng):
     return n, d, k, l
 
 
+def lattice_wrap_params(rng):
+    """Small rings relative to shift, width and edge size, shifts of n and more, negative shifts: edges wrap the ring (several times),
+    members may coincide.  Returns (n, d, k, l, region)."""
+    n = rng.choice([0, 1, 1, 2, 2, 3, 3, 4, 4, 5, 6, 7, 8])
+    d = rng.randint(1, 5)
+    k = rng.choice([0, 1, 2, 2, 3, 4, 4, 6, 8])
+    region = rng.choice(["negative-l", "l>=n", "l>=n", "small-ring", "small-ring"])
+    if region == "negative-l":
+        l = -rng.randint(1, 2 * n + 3)
+    elif region == "l>=n":
+        l = rng.randint(n, 3 * n + 3)
+    else:
+        l = rng.randint(0, 3)
+        n = min(n, int(d + l + k / 2))  # an edge reaches around the ring
+    return n, d, k, l, region
+
+
+def wrap_clauses(mon, fname, trig, H, desc, n, d):
+    """What the statement makes for every admissible parameter: exact node set 0..n-1, every edge a non-empty set of at most d existing nodes."""
+    return basic(mon, fname, trig, H, desc, range(n), sizes=set(range(1, d + 1)))
+
+
 def g_ring_lattice(mon, rng):
     fname = "ring_lattice"
+    if rng.random() < 0.5:
+        n, d, k, l, region = lattice_wrap_params(rng)
+        mon.note(f"ring_lattice:wrapping:{region}")
+        H, desc = call(mon, fname, "wrapping", (n, d, k, l), {})
+        nodes, mem = wrap_clauses(mon, fname, "wrapping", H, desc, n, d)
+        record(mon, fname, (n, d, k, l), None, mem, boundary=True)
+        return
     if rng.random() < 0.05:
         try:
             call(mon, fname, "k<0", (6, 2, -2, 0), {}, rejects=(XGIError,))
@@ -770,8 +799,21 @@ def g_ring_lattice(mon, rng):
 
 def g_watts_strogatz_hypergraph(mon, rng):
     fname = "watts_strogatz_hypergraph"
-    n, d, k, l = lattice_params(rng)
     p = prob(rng)
+    if rng.random() < 0.4:  # the lattice underneath wraps the ring
+        n, d, k, l, region = lattice_wrap_params(rng)
+        mon.note(f"watts_strogatz_hypergraph:wrapping:{region}")
+        trig = "wrapping"
+        L, _ = call(mon, "ring_lattice", trig, (n, d, k, l), {})
+        n_lat = len(observe(L)[1])
+        for seed in seeds_for(rng, 3):
+            H, desc = call(mon, fname, trig, (n, d, k, l, p), {"seed": with_seed(rng, seed)})
+            nodes, mem = wrap_clauses(mon, fname, trig, H, desc, n, d)
+            if len(mem) != n_lat:
+                fire(mon, fname, trig, "edge-count-differs-from-lattice", f"{len(mem)} edges, the lattice has {n_lat}", desc)
+            record(mon, fname, (n, d, k, l, p), seed, mem, boundary=True)
+        return
+    n, d, k, l = lattice_params(rng)
     trig = ptrig([p])
     L, _ = call(mon, "ring_lattice", "non-wrapping", (n, d, k, l), {})
     lat = Counter(observe(L)[1].values())
